@@ -28,7 +28,7 @@ func init() {
 			StatesMean:  "(script, history of operations) prefixes visited on the real runners; transitions = real Next / Snapshot / RestoreAt calls compared with the model",
 			Assumptions: []string{"small-scope hypothesis on scripts and path lengths", "scripts of this family contain no failing statement and no random function"},
 		},
-		QuickBudget: 150 * time.Second, ThoroughBudget: 14 * time.Minute, CrashIsViolation: true,
+		QuickBudget: 240 * time.Second, ThoroughBudget: 14 * time.Minute, CrashIsViolation: true,
 		Run: runC07,
 	})
 }
